@@ -47,3 +47,107 @@ QUERIES = [
      "bound": "task DAGs chain/fork/join/late-submission/time-limited-dependency on 3 tasks; event script of 3 (quick) / 4 (thorough) events, each any enabled event (exit of any live child with a symbolic "
               "exit status, cancel of any task, next timer, late submission) or stop; then everything outstanding is delivered; 1 or 2 cores; thorough adds back-to-back delivery (races) and start/log faults"},
 ]
+
+
+# ---------------------------------------------------------------- Q11s the same guarantee for tasks submitted over the socket protocol
+def _q11s(how, rc, late, two):
+    """Tasks are enqueued the way `gwf -b local run` does it: JSON lines handled by the real Server.handle_connection.
+    a (and optionally a2) first, then b depending on it (them).  a ends in one of four ways; b may be submitted before
+    or after a ended.  b's process may start only if every dependency's process ran to exit status 0."""
+    import json as _json
+    from gwf.backends.local import Server
+    from vf.props.C14 import Reader, Writer, msg
+    from vf.world.poolworld import LocalStatus, Pool
+    if not q.in_range(how, 4):
+        return q.SKIP
+    how = q.pick([0, 1, 2, 3], how)        # 0 exit status rc, 1 cancelled by a request, 2 cannot be started, 3 time limit
+    late, two = (True if late else False), (True if two else False)
+    pool = Pool(max_cores=2)
+    if how == 2:
+        pool.spawn_fail_names.add("a")
+    pool.install()
+    try:
+        loop, sched = pool.loop, pool.sched
+        srv = Server(sched)
+        r, w = Reader(loop), Writer()
+        loop.create_task(srv.handle_connection(r, w))
+
+        def enqueue(name, deps, tl=None):
+            pool.pending_names.append(name)
+            r.feed(msg("enqueue_task", name=name, script="job " + name, time_limit=tl, working_dir="/vfs/proj", deps=deps))
+            pool.settle()
+            ln = w.next_line()
+            ans = _json.loads(ln) if ln else {}
+            if ans.get("__kind__") != "task_enqueued":
+                raise q.HarnessError("enqueue answered %r" % (ans,))
+            pool.names[ans["tid"]] = name
+            pool.deps[ans["tid"]] = list(deps)
+            return ans["tid"]
+
+        def end_a(ta):
+            p = pool.proc_of(ta)
+            if how == 0:
+                if p is not None and p.alive():
+                    p.rc_given = rc
+                    pool.exit(p, rc)
+            elif how == 1:
+                r.feed(msg("cancel_task", tid=ta))
+            elif how == 3:
+                if pool.timer():
+                    pass
+            pool.settle()
+            for _ in range(4):
+                if pool.timer():
+                    pool.settle()
+
+        ta = enqueue("a", [], 5 if how == 3 else None)
+        deps = [ta]
+        if two:
+            ta2 = enqueue("a2", [])
+            deps.append(ta2)
+        if late:
+            end_a(ta)
+            tb = enqueue("b", deps)
+        else:
+            tb = enqueue("b", deps)
+            end_a(ta)
+        if two:
+            p2 = pool.proc_of(ta2)
+            if p2 is not None and p2.alive():
+                p2.rc_given = 0
+                pool.exit(p2, 0)
+                pool.settle()
+        for _ in range(4):
+            for p in pool.live():
+                p.rc_given = 0
+                pool.exit(p, 0)
+                pool.settle()
+            if pool.timer():
+                pool.settle()
+        pa = pool.proc_of(ta)
+        a_ok = pa is not None and pa.ran_to_end and pa.rc_given == 0 and how == 0
+        started_b = pool.proc_of(tb) is not None
+        ways = ["exited with status 0" if a_ok else "exited with a non-zero status", "was cancelled", "could not be started", "exceeded its time limit"]
+        if started_b != a_ok:
+            return "[C11] dependency a %s; b (submitted %s over the socket protocol) %s" % (ways[how], "afterwards" if late else "before that", "was started" if started_b else "was never started")
+        st = sched.task_states.get(tb)
+        if a_ok and st != LocalStatus.COMPLETED:
+            return "[C11] every dependency completed but b ended %s" % (st.name if st else st)
+        if not a_ok and st == LocalStatus.COMPLETED:
+            return "[C11] b is completed although dependency a %s" % ways[how]
+        return ""
+    finally:
+        pool.uninstall()
+
+
+def q11s(how: int, rc: int, late: bool, two: bool) -> str:
+    """
+    post: _ == ""
+    """
+    return q.run(_q11s, (how, rc, late, two))
+
+
+QUERIES.append(
+    {"name": "Q11s", "fn": q11s, "shards": [{}], "timeout": 600,
+     "bound": "tasks submitted as JSON lines through the real Server.handle_connection: a (optionally a second dependency), then b depending on it; a exits with a symbolic status / is cancelled by a request / cannot be started / exceeds its time limit; b submitted before or after a ended"})
+META["real"] = list(META.get("real", [])) + ["gwf.backends.local.Server.handle_connection (request decoding on the way to enqueue_task / cancel_task)"]
